@@ -216,6 +216,20 @@ func runC10(r *Run) {
 				})
 				r.S.ParkE("a.prog.intruder", func() bool { return idone }, nil)
 				icancel()
+				// ... and a second one after the first has given up: the message is
+				// still open, so this call has to wait and give up as well
+				ictx2, icancel2 := context.WithTimeout(bg, 300*time.Millisecond)
+				idone2 := false
+				var ierr2 error
+				r.S.Go(fmt.Sprintf("intruder%db", i), func() {
+					ierr2 = c.Write(ictx2, websocket.MessageBinary, []byte("second intruder"))
+					idone2 = true
+				})
+				r.S.ParkE("a.prog.intruder2", func() bool { return idone2 }, nil)
+				icancel2()
+				if ierr2 == nil {
+					r.Violate("write-inside-open-writer", sig, "op %d: a Write returned nil while another goroutine's streaming Writer had its message open (after an earlier Write had given up waiting for it)", i)
+				}
 				r.S.Count("probe.write-attempt-during-open-writer")
 			}
 			if _, err = w.Write(data[h:]); err != nil {
